@@ -38,6 +38,7 @@ def mtInformationRequest : UInt8 := 11
 def ocClientID : Nat := 1
 def ocServerID : Nat := 2
 def ocIANA : Nat := 3
+def ocIATA : Nat := 4
 def ocORO : Nat := 6
 def ocRelayMsg : Nat := 9
 def ocRapidCommit : Nat := 14
@@ -47,11 +48,12 @@ def ocDNS : Nat := 23
 def ocDomainSearchList : Nat := 24
 def ocIAPD : Nat := 25
 def ocRemoteID : Nat := 37
+def ocFQDN : Nat := 39
 def ocBootfileURL : Nat := 59
 def ocBootfileParam : Nat := 60
 def ocClientLinkLayerAddr : Nat := 79
 
-/-! ### `Options.GetOne / Get / Add / Update` and the message-level wrappers -/
+/-! ### `Options.GetOne / Get / Add / Del / Update` and the message-level wrappers -/
 
 /-- `Options.GetOne(code)`: first option with that code -/
 def getOne (code : Nat) (os : List Opt6) : Option Opt6 := os.find? (fun o => o.code == code)
@@ -63,6 +65,10 @@ def get (code : Nat) (os : List Opt6) : List Opt6 := os.filter (fun o => o.code 
 def update (o : Opt6) : List Opt6 → List Opt6
   | [] => [o]
   | x :: xs => if x.code == o.code then o :: xs else x :: update o xs
+
+/-- `Options.Del(code)`: every option with that code is dropped, the others keep
+their order (the Go loop copies the options whose `Code() != code`) -/
+def del (code : Nat) (os : List Opt6) : List Opt6 := os.filter (fun o => o.code != code)
 
 def Msg6.isRelay : Msg6 → Bool
   | .relay .. => true
@@ -87,6 +93,13 @@ def Msg6.updateOption (m : Msg6) (o : Opt6) : Msg6 :=
   match m with
   | .relay t h l p os => .relay t h l p (update o os)
   | .msg t x os => .msg t x (update o os)
+
+/-- `m.Options.Del(code)` (`Options` is embedded in `MessageOptions` and in
+`RelayOptions`, so the method is reachable on both message kinds) -/
+def Msg6.delOption (m : Msg6) (code : Nat) : Msg6 :=
+  match m with
+  | .relay t h l p os => .relay t h l p (del code os)
+  | .msg t x os => .msg t x (del code os)
 
 /-! ### RelayOptions accessors (checked type assertions: a wrong dynamic type reads as absent) -/
 
@@ -134,6 +147,10 @@ def Opt6.isIANA : Opt6 → Bool
   | .iana .. => true
   | _ => false
 
+def Opt6.isIATA : Opt6 → Bool
+  | .iata .. => true
+  | _ => false
+
 def Opt6.isIAPD : Opt6 → Bool
   | .iapd .. => true
   | _ => false
@@ -145,6 +162,14 @@ def ianasOf (os : List Opt6) : Res (List Opt6) :=
 
 /-- `MessageOptions.OneIANA()` -/
 def oneIANAOf (os : List Opt6) : Res (Option Opt6) := (ianasOf os).map List.head?
+
+/-- `MessageOptions.IATA()`: every option with code 4 is asserted to be `*OptIATA` -/
+def iatasOf (os : List Opt6) : Res (List Opt6) :=
+  let xs := get ocIATA os
+  if xs.all Opt6.isIATA then .ok xs else .panic
+
+/-- `MessageOptions.OneIATA()` -/
+def oneIATAOf (os : List Opt6) : Res (Option Opt6) := (iatasOf os).map List.head?
 
 /-- `MessageOptions.IAPD()` -/
 def iapdsOf (os : List Opt6) : Res (List Opt6) :=
@@ -279,7 +304,26 @@ def newRelayReplFromRelayForw (relay msg : Msg6) : Res Msg6 :=
 
 /-! ### modifiers (modifiers.go) -/
 
-/-- the exported `With*` modifiers that do not need a label set -/
+/-- an `OptIAAddress` VALUE (the parameter type of `WithIANA` / `WithIATA`) -/
+structure IAAddr where
+  ip : IP
+  pref : Dur
+  valid : Dur
+  opts : List Opt6
+
+/-- `&addr` as an `Option` -/
+def IAAddr.toOpt (a : IAAddr) : Opt6 := .iaaddr a.ip a.pref a.valid a.opts
+
+/-- a non-nil `*OptIAPrefix` (the parameter type of `WithIAPD`) -/
+structure IAPfx where
+  pref : Dur
+  valid : Dur
+  pfx : Option (Nat × IP)
+  opts : List Opt6
+
+def IAPfx.toOpt (a : IAPfx) : Opt6 := .iaprefix a.pref a.valid a.pfx a.opts
+
+/-- the exported `With*` modifiers of modifiers.go (all eighteen) -/
 inductive Mod6 where
   /-- `WithOption(o)` -/
   | option (o : Opt6)
@@ -307,6 +351,17 @@ inductive Mod6 where
   | clientLLA (ht : Nat) (addr : Bytes)
   /-- `WithDHCP4oDHCP6Server(addrs...)` -/
   | dhcp4o6Server (ips : List IP)
+  /-- `WithFQDN(flags, domainname)`: the option holds a FRESH label set
+  (`original = nil`) with the one name -/
+  | fqdn (flags : UInt8) (name : Bytes)
+  /-- `WithDomainSearchList(names...)`: a fresh label set with the names -/
+  | domainSearchList (names : List Bytes)
+  /-- `WithIANA(addrs...)` -/
+  | ianaAddrs (addrs : List IAAddr)
+  /-- `WithIATA(iaid, addrs...)` -/
+  | iata (id : Bytes) (addrs : List IAAddr)
+  /-- `WithIAPD(iaid, prefixes...)` (non-nil prefixes) -/
+  | iapd (id : Bytes) (pfxs : List IAPfx)
 
 /-- `OptionCodes.Add` for each code in turn -/
 def addCodes (acc : List Nat) : List Nat → List Nat
@@ -340,6 +395,38 @@ def applyMod (m : Msg6) : Mod6 → Res Msg6
   | .infoRefresh d => .ok (m.updateOption (.infoRefresh d))
   | .clientLLA ht a => .ok (m.updateOption (.clientLLA ht a))
   | .dhcp4o6Server ips => .ok (m.updateOption (.dhcp4o6Server ips))
+  | .fqdn f name => .ok (m.updateOption (.fqdn f { original := none, labels := [name] }))
+  | .domainSearchList names => .ok (m.updateOption (.domainSearch { original := none, labels := names }))
+  | .ianaAddrs addrs =>
+    -- `iana := msg.Options.OneIANA()` (unchecked assertions on every code-3
+    -- option); `&OptIANA{}` when there is none; the addresses are appended to
+    -- its sub-options; `UpdateOption` puts it (back) in first code-3 position
+    match m with
+    | .relay .. => .ok m
+    | .msg _ _ os =>
+      match oneIANAOf os with
+      | .ok none => .ok (m.updateOption (.iana (zeros 4) 0 0 (addrs.map IAAddr.toOpt)))
+      | .ok (some (.iana id t1 t2 sub)) =>
+        .ok (m.updateOption (.iana id t1 t2 (sub ++ addrs.map IAAddr.toOpt)))
+      | _ => .panic
+  | .iata id addrs =>
+    match m with
+    | .relay .. => .ok m
+    | .msg _ _ os =>
+      match oneIATAOf os with
+      | .ok none => .ok (m.updateOption (.iata (copyInto 4 id) (addrs.map IAAddr.toOpt)))
+      | .ok (some (.iata _ sub)) =>
+        .ok (m.updateOption (.iata (copyInto 4 id) (sub ++ addrs.map IAAddr.toOpt)))
+      | _ => .panic
+  | .iapd id pfxs =>
+    match m with
+    | .relay .. => .ok m
+    | .msg _ _ os =>
+      match oneIAPDOf os with
+      | .ok none => .ok (m.updateOption (.iapd (copyInto 4 id) 0 0 (pfxs.map IAPfx.toOpt)))
+      | .ok (some (.iapd _ t1 t2 sub)) =>
+        .ok (m.updateOption (.iapd (copyInto 4 id) t1 t2 (sub ++ pfxs.map IAPfx.toOpt)))
+      | _ => .panic
 
 /-- `for _, mod := range modifiers { mod(m) }` -/
 def applyMods (m : Msg6) : List Mod6 → Res Msg6
